@@ -35,6 +35,20 @@ Print Assumptions minus_classified.
 Theorem tokenizer_reads_back : forall toks, Forall wf_tok toks -> tokenize (str_of (render toks)) = Some (map str_of toks).
 Proof. exact tokenize_render. Qed.
 Print Assumptions tokenizer_reads_back.
+(* ... and with the other literal forms: hexadecimal / binary literals (0x, 0X, 0b, 0B + hex digits) and decimal numbers, each followed by any
+   of the integer suffixes u, l, ll, ul, lu, ull, llu (either case), are read back as the literal WITHOUT its suffix *)
+Theorem tokenizer_reads_back_prefixed_and_suffixed_literals : forall toks, Forall (fun t => wf_wtok (fst t) (snd t)) toks ->
+  tokenize (str_of (render_w toks)) = Some (map (fun t => str_of (snd t)) toks).
+Proof. exact tokenize_render_w. Qed.
+Print Assumptions tokenizer_reads_back_prefixed_and_suffixed_literals.
+Example ex_tokens_literals : tokenize "0x1FuL + 12ull * 0b101 - n" = Some ["0x1F"; "+"; "12"; "*"; "0b101"; "-"; "n"]
+  /\ wf_wtok (chars_of "0x1FuL") (chars_of "0x1F") /\ wf_wtok (chars_of "12ull") (chars_of "12").
+Proof.
+  split; [vm_compute; reflexivity|]. split.
+  - apply (WwPrefixed "x"%char "1"%char ["F"%char] (chars_of "uL")); [reflexivity|reflexivity|vm_compute; tauto].
+  - apply (WwDecimalSuffixed "1"%char ["2"%char] (chars_of "ull")); [reflexivity|reflexivity|reflexivity|vm_compute; tauto].
+Qed.
+
 Example ex_tokens : tokenize "n * 2 + ( m >> 1 ) - 10" = Some ["n"; "*"; "2"; "+"; "("; "m"; ">>"; "1"; ")"; "-"; "10"].
 Proof. vm_compute. reflexivity. Qed.
 
